@@ -178,7 +178,7 @@ type functionBuilder struct {
 	scopes                 []map[string]int8
 	scopeShifts            []runtime.StackShift
 	complexBinaryOpIndexes map[ast.OperatorType]int8 // indexes of complex binary op. functions.
-	complexUnaryOpIndex    int8                      // index of complex negation function.
+	complexUnaryOpIndex    int                       // index of complex negation function, -1 if not added.
 
 	// text refers to the latest emitted Text instruction with its text to be flushed into the function.
 	text struct {
@@ -612,12 +612,14 @@ func (fb *functionBuilder) allocRegister(typ registerType, reg int8) {
 // binary or unary operation specified by op.
 func (fb *functionBuilder) complexOperationIndex(op ast.OperatorType, unary bool) int8 {
 	if unary {
+		// The index is kept as an int: as an int8 the index 255 would be
+		// equal to -1, that means that the function has not been added.
 		if fb.complexUnaryOpIndex != -1 {
-			return fb.complexUnaryOpIndex
+			return int8(fb.complexUnaryOpIndex)
 		}
 		fn := newNativeFunction("scriggo.complex", "neg", negComplex)
 		index := fb.addNativeFunction(fn)
-		fb.complexUnaryOpIndex = index
+		fb.complexUnaryOpIndex = int(uint8(index))
 		return index
 	}
 	if index, ok := fb.complexBinaryOpIndexes[op]; ok {
